@@ -161,7 +161,8 @@ class CodecModel:
         lf = mod.func("load_fields")
         wt = wire_type_local(lf)
         for w in range(8):
-            paths = Interp(mod, local_bindings={wt: w}, fresh_calls=["read", "load_varint"]).run(lf)
+            from .decode import exact_readers
+            paths = Interp(mod, local_bindings={wt: w}, fresh_calls=["read", "load_varint"] + list(exact_readers(mod))).run(lf)
             self.ctx.count(len(paths))
             kinds = set()
             for p in paths:
@@ -219,8 +220,8 @@ def _payload_kind(val: Optional[Sym]) -> str:
         return "None"
     if val[0] == "item" and val[1][0] == "call" and dotted(val[1][1]) in ("load_varint", "decode_varint"):
         return "varint"
-    if val[0] == "call" and dotted(val[1]).endswith(".read"):
-        n = val[2][0]
+    if val[0] == "call" and (dotted(val[1]).endswith(".read") or dotted(val[1]).startswith("_read")) and val[2]:
+        n = val[2][-1] if not dotted(val[1]).endswith(".read") else val[2][0]
         if n[0] == "c":
             return f"read:{n[1]}"
         return "read:len"
@@ -578,6 +579,13 @@ def _load_paths(ctx, mod, t: Optional[str], w: Optional[int], **kw) -> List[Path
         b[A(N("$parsed"), "wire_type")] = w
     al = load_aliases()
     # proto_meta = self._betterproto
+    # small helpers called in load on (incoming wire type, declared type) only are part of the dispatch: inline them
+    inline = dict(kw.pop("inline", None) or {})
+    for c in ast.walk(load):
+        if isinstance(c, ast.Call) and isinstance(c.func, ast.Name) and mod.has(c.func.id) and c.args and \
+                all(ast.unparse(a).endswith((".wire_type", ".proto_type")) for a in c.args):
+            inline[c.func.id] = (mod, mod.func(c.func.id))
+    kw["inline"] = inline
     assume = dict(kw.pop("assume", None) or {})
     assume.setdefault(("op", "is", N("$parsed"), C(None)), False)   # a field was read (end of input is the other branch)
     i = Interp(mod, bindings=b, aliases=al, alias_fn=load_alias_fn, loop_roles=load_roles, assume=assume, **kw)
